@@ -5,6 +5,7 @@ sys.path.insert(0, os.path.join(os.path.dirname(os.path.abspath(__file__))))
 import seed_checks
 
 ID, K = sys.argv[1], int(sys.argv[2])
+DEST = int(sys.argv[3]) if len(sys.argv) > 3 else K      # number under which the change is filed (round 2: K + 2)
 src = f"/tmp/seed/{ID}/out"
 conf = json.load(open(f"/tmp/confirm/{ID}_{K}.json"))
 if conf.get("error"):
@@ -16,7 +17,7 @@ if not (ok_tests and differs):
 metas = json.load(open(os.path.join(src, "meta.json")))
 m = next((x for x in metas if str(K) in x.get("patch", "")), metas[K - 1] if len(metas) >= K else {})
 res = seed_checks.run(os.path.join(src, f"patch_{K}.diff"))
-dst = f"/verif/seeded/{ID}-{K}"
+dst = f"/verif/seeded/{ID}-{DEST}"
 os.makedirs(dst, exist_ok=True)
 shutil.copy(os.path.join(src, f"patch_{K}.diff"), os.path.join(dst, "patch.diff"))
 shutil.copy(os.path.join(src, f"demo_{K}.py"), os.path.join(dst, "demo.py"))
@@ -30,7 +31,7 @@ meta = {
     "rules": {p: res["results"][p]["rules"] for p in fired},
     "report": {p: res["results"][p]["first"] for p in fired[:3]},
     "own_property_detects": ID in fired,
-    "apply": f"git -C /repo apply /verif/seeded/{ID}-{K}/patch.diff   # undo: git -C /repo checkout -- .",
+    "apply": f"git -C /repo apply /verif/seeded/{ID}-{DEST}/patch.diff   # undo: git -C /repo checkout -- .",
 }
 json.dump(meta, open(os.path.join(dst, "meta.json"), "w"), indent=1)
-print(f"{ID}-{K}: kept; detected by {fired}; own property: {ID in fired}; errors {errs}")
+print(f"{ID}-{DEST}: kept; detected by {fired}; own property: {ID in fired}; errors {errs}")
